@@ -238,7 +238,12 @@ func (r *Rig) NewClient(id string) (*RigClient, error) {
 		if id != "" && id[len(id)-1]%2 == 0 {
 			h1, h2 = h2, h1
 		}
-		opts = append(opts, h1, h2, jsonrpc.WithClientHandlerAlias("rev.alias", "Rev.Aliased"))
+		if SingleRevHandler(id) {
+			// every third client has just the one handler
+			opts = append(opts, jsonrpc.WithClientHandler("Rev", c.Rev), jsonrpc.WithClientHandlerAlias("rev.alias", "Rev.Aliased"))
+		} else {
+			opts = append(opts, h1, h2, jsonrpc.WithClientHandlerAlias("rev.alias", "Rev.Aliased"))
+		}
 	}
 	closer, err := jsonrpc.NewMergeClient(context.Background(), "ws://"+r.Addr(), "Tok", []interface{}{&c.C}, nil, opts...)
 	if err != nil {
@@ -295,6 +300,11 @@ func (r *Rig) Close() {
 
 func (r *Rig) Tok(prefix string) string {
 	return fmt.Sprintf("%s-%s-%d", prefix, r.name, atomic.AddInt64(&r.tokSeq, 1))
+}
+
+// SingleRevHandler tells whether the client with this id registers one client-side handler only (no Rev2).
+func SingleRevHandler(id string) bool {
+	return id != "" && id[len(id)-1]%3 == 0
 }
 
 // ---- asynchronous calls -----------------------------------------------------
